@@ -330,6 +330,9 @@ def ops_alphabet (w, thorough):
       # (with an explicit type only once the source has a handler list for that type: removing from a type nobody
       #  ever subscribed to raises KeyError, which the property does not speak about)
       if thorough and any(x.etype == "E1" for x in w.subs): ops.append(("unsub-handler", hid, "E1"))
+      # naming a type the source never declared removes nothing (KeyError / ReventError / False are all fine);
+      # what matters is that the type stays unknown to the source afterwards
+      if hid == min(used): ops.append(("unsub-undeclared", hid))
   for j, s in enumerate(w.subs[:3]):
     for form in ("eid", "tuple", "eid+type"):
       ops.append(("unsub-token", j, form))
@@ -362,6 +365,15 @@ def apply_op (w, op):
     except Stop: raise
     except Exception as e:
       w.fail("internal-error", "removeListener(handler%s) failed inside the library: %s: %s" % (", type" if op[2] else "", type(e).__name__, e))
+  elif k == "unsub-undeclared":
+    w.feats.add("E3")
+    try:
+      r = w.src.removeListener(w.owner(op[1]).h, w.E["E3"])
+      if r: w.fail("unsub-undeclared-removed", "removeListener(handler, undeclared type) claims to have removed something: %r" % (r,))
+    except Stop: raise
+    except (KeyError, w.rv.ReventError): pass
+    except Exception as e:
+      w.fail("internal-error", "removeListener(handler, undeclared type) failed inside the library: %s: %s" % (type(e).__name__, e))
   elif k == "unsub-token":
     w.feats.add("unsub." + op[2])
     s = w.subs[op[1]]
